@@ -48,7 +48,7 @@ class FakePort(PortExtras):
         self.lines_read = []            # every line handed out by readline (a line that a write consumes is never read)
     # the exception classes a failing port raises: pyserial's own, and the OS-level ones that can come through it
     FAULTS = [serial.SerialException, serial.SerialException, OSError, serial.SerialTimeoutException, BrokenPipeError, serial.SerialException,
-              IOError, TimeoutError, serial.serialutil.PortNotOpenError, ConnectionResetError]
+              IOError, TimeoutError, serial.serialutil.PortNotOpenError, ConnectionResetError, RuntimeError]
     NARROW = [serial.SerialException, serial.SerialTimeoutException, serial.serialutil.PortNotOpenError]
     wide_faults = True       # False while connect / reboot / bootload run: those contain pyserial's exceptions only (see DESIGN.md 0.6)
     force_fault = None       # a harness may pin the exception class of every injected fault (e.g. SerialTimeoutException at the write)
@@ -67,6 +67,7 @@ class FakePort(PortExtras):
         if issubclass(cls, serial.SerialException):
             if k == 1 and self.wide_faults: return cls([11, 4, 11][self.script.consumed % 3], "Resource temporarily unavailable (injected fault on %s)" % where)
             return cls("injected fault on %s" % where)
+        if cls is RuntimeError: return cls("injected fault on %s" % where)           # no error number, no further attributes
         if k == 1: return cls([11, 4, 35][self.script.consumed % 3], "Resource temporarily unavailable (injected fault on %s)" % where)
         return cls(5, "Input/output error (injected fault on %s)" % where)
     def write(self, data):
